@@ -493,7 +493,24 @@ def agc_check(case):
             break
     if np.any(gain < 0) or not np.all(np.isfinite(out)):
         v.append(("agc:finite", "agc returns negative gain or non-finite data"))
-    return Res(v, o=(n < int(wl / si),), tr=1)
+    # value patterns: constant non-zero rows (railed / stuck channel, DC offset), a constant row with one outlier, a row silent for its first 60 %, the int16 rails, a zero row
+    p = np.zeros((8, n))
+    p[0], p[1], p[2] = 2.5, -1e-3, 1.0
+    p[2, n // 2] = 3.0
+    p[3, (6 * n) // 10:] = rng.standard_normal(n - (6 * n) // 10)
+    p[4] = np.where(np.arange(n) % 2 == 0, -32768.0, 32767.0)
+    p[5] = 32767.0
+    p[6] = rng.standard_normal(n)
+    p0 = p.copy()
+    try:
+        o3, g3 = voltage.agc(p, wl=wl, si=si)
+        if o3.shape != p0.shape or g3.shape != p0.shape or not np.allclose(o3 * g3, p0, rtol=1e-9, atol=1e-300) or not np.all(np.isfinite(o3)):
+            rows = np.flatnonzero(~np.all(np.isclose(o3 * g3, p0, rtol=1e-9, atol=1e-300), axis=1)).tolist() if o3.shape == p0.shape else []
+            names = ["constant 2.5", "constant -1e-3", "constant with one outlier", "silent for its first 60 %", "alternating int16 rails", "constant 32767", "noise", "all zero"]
+            v.append(("agc:product:value-pattern", "agc(wl=%r, si=%r, ns=%d): data x gain differs from the input on the rows %r" % (wl, si, n, [names[r] for r in rows])))
+    except Exception as e:
+        v.append(("agc:exc:value-pattern", "agc(wl=%r, si=%r, ns=%d) on constant / partly silent rows raised %s: %s" % (wl, si, n, type(e).__name__, e)))
+    return Res(v, o=(n < int(wl / si),), tr=2)
 
 
 CHECK = {
